@@ -60,6 +60,7 @@ type Script struct {
 	StmtProgram []StmtOp `json:"stmt_program,omitempty"`
 	// C17: binder-only simulation (replaces world/ops)
 	C17 *C17Script `json:"c17,omitempty"`
+	C20 *C20Script `json:"c20,omitempty"`
 }
 
 func (s *Script) JSON() string {
@@ -219,6 +220,9 @@ func RunScript(t *testing.T, s *Script, oracles []Oracle, keepTrace bool) (res *
 	}()
 	if s.C17 != nil {
 		return runC17(t, s.C17)
+	}
+	if s.C20 != nil {
+		return runC20(t, s.C20)
 	}
 	func() {
 		defer func() {
